@@ -3,6 +3,7 @@ import Bmc.Proofs.C09
 #print axioms Bmc.Proofs.C09.serialise_failure_consumes_nothing
 #print axioms Bmc.Proofs.C09.history_seqs
 #print axioms Bmc.Proofs.C09.history_strictly_increasing
+#print axioms Bmc.Proofs.C09.history_no_reuse
 #print axioms Bmc.Proofs.C09.sessionless_null
 #print axioms Bmc.Proofs.C09.sessionless_all_null
 #print axioms Bmc.Proofs.C09.sequence_counter_writers
